@@ -23,7 +23,8 @@ META = {
              "an invocation other than the first on a cube with >=2 sub-cubes; distinct by (case hash, mode, plan)"),
     "require": {t: ["mode:serial", "mode:real", "mode:controlled", "plan:empty", "plan:singleton", "plan:multi",
                     "k=1", "k>=12", "cube:ccube", "cube:xcube", "followup:compared", "raised:identity_checked",
-                    "interrupt_class:RuntimeError", "interrupt_class:TimeoutError", "interrupt_class:KeyError"]
+                    "interrupt_class:RuntimeError", "interrupt_class:TimeoutError", "interrupt_class:KeyError",
+                    "k>1024", "callback:class_level"]
                 for t in ("quick", "thorough")},
     "exhaustive": {t: "every singleton fault plan (every cancellation point) of every generated cube, in each mode"
                    for t in ("quick", "thorough")},
@@ -33,12 +34,14 @@ META = {
 }
 
 KS = [1, 2, 3, 4, 6, 8, 12, 24]
+BIG_KS = [1056, 1296]      # 32*33, 36*36: more sub-cubes than any chunking constant one would pick
 
 
 def shards(tier):
     if tier == "quick":
-        return [{"label": "cubes%d" % i, "n": 4, "timeout_s": 900} for i in range(12)]
-    return [{"label": "cubes%d" % i, "n": 70} for i in range(16)]
+        return [{"label": "cubes%d" % i, "n": 4, "timeout_s": 900} for i in range(12)] + \
+               [{"label": "big%d" % i, "n": 1, "big": True, "timeout_s": 900} for i in range(2)]
+    return [{"label": "cubes%d" % i, "n": 70} for i in range(15)] + [{"label": "big%d" % i, "n": 6, "big": True} for i in range(2)]
 
 
 class Interrupt(Exception):
@@ -71,9 +74,9 @@ INTERRUPT_CLASSES = [Interrupt, InterruptRuntime, InterruptTimeout, InterruptKey
 def cube_with_k(rng, kind, k):
     """Extra-axis extents whose product is k."""
     factor = {1: [[]], 2: [[2]], 3: [[3]], 4: [[4], [2, 2]], 6: [[6], [2, 3], [3, 2]], 8: [[2, 4], [2, 2, 2], [8]],
-              12: [[3, 4], [2, 6], [2, 2, 3]], 24: [[4, 6], [2, 3, 4], [2, 12]]}[k]
+              12: [[3, 4], [2, 6], [2, 2, 3]], 24: [[4, 6], [2, 3, 4], [2, 12]], 1056: [[32, 33]], 1296: [[36, 36]]}[k]
     extras = list(gen.pick(rng, factor))
-    n = gen.pick(rng, [3, 6, 12])
+    n = gen.pick(rng, [3, 6, 12]) if k <= 24 else 2
     # distribute the extra axes over 1-3 dimensions (<= 2 extra axes per dimension)
     ndims = max((len(extras) + 1) // 2, 1, min(3, int(rng.integers(1, 4))))
     per_dim = [[] for _ in range(ndims)]
@@ -90,7 +93,7 @@ def cube_with_k(rng, kind, k):
     from .. import aggr
 
     names = aggr.SHARED if kind == "ccube" else aggr.SHARED + aggr.XONLY
-    aggs = list(names) if rng.random() < 0.3 else [gen.pick(rng, names)]
+    aggs = list(names) if (rng.random() < 0.3 and k <= 24) else [gen.pick(rng, names if k <= 24 else ["count", "sum"])]
     return {"dense": dense, "commons": commons, "shape": tuple(extents), "extents": extents, "n": n, "kind": kind,
             "aggs": aggs, "subcubes": k,
             "inputs": [aggr.agg_inputs(rng, n) if a in aggr.SHARED else aggr.xonly_inputs(rng, n, a) for a in aggs]}
@@ -98,6 +101,13 @@ def cube_with_k(rng, kind, k):
 
 def cases(ctx):
     rng = ctx.rng
+    if ctx.shard.get("big"):
+        for i in range(ctx.shard["n"]):
+            c = cube_with_k(rng, "ccube" if (i + ctx.shard_index) % 2 == 0 else "xcube", BIG_KS[i % 2])
+            c["pseed"] = int(rng.integers(0, 2 ** 30))
+            c["big"] = True
+            yield c
+        return
     for i in range(ctx.shard["n"]):
         k = KS[(i + ctx.shard_index) % len(KS)]
         kind = "ccube" if (i + ctx.shard_index // len(KS)) % 2 == 0 else "xcube"
@@ -129,7 +139,13 @@ def run_plan(ctx, case, mode, plan, seed, fresh_ref, feat):
                 raised.append(e)
             raise e
 
-    cube.check_interrupt = callback
+    if seed % 4 == 3:
+        # the callback is supplied at class level (a subclass), not on the instance
+        sub = type("Sub" + type(cube).__name__, (type(cube),), {"check_interrupt": staticmethod(callback)})
+        cube.__class__ = sub
+        ctx.count("callback:class_level")
+    else:
+        cube.check_interrupt = callback
     base_threads = threading.active_count()
     factory = None
     if mode == "controlled":
@@ -202,7 +218,10 @@ def run_plan(ctx, case, mode, plan, seed, fresh_ref, feat):
     # a following fault-free calculate on the same objects equals a fresh evaluation
     quiesced = threading.active_count() <= base_threads
     calls2 = []
-    cube.check_interrupt = lambda: calls2.append(1)
+    if "check_interrupt" not in vars(cube):
+        cube.__class__.check_interrupt = staticmethod(lambda: calls2.append(1))
+    else:
+        cube.check_interrupt = lambda: calls2.append(1)
     cube.parallel = False
     got = pooled.result_bytes(cube.calculate(funcs))
     ctx.count("followup:compared")
@@ -232,6 +251,16 @@ def judge(ctx, case):
     modes = ["serial"] + (["real", "controlled"] if k >= 3 else [])
     if "only_mode" in case:
         return run_plan(ctx, case, case["only_mode"], set(case["only_plan"]), int(case["only_seed"]), fresh_ref, feat)
+    if case.get("big"):
+        # more than 1024 sub-cubes: sampled cancellation points (first, last, around 256/1024, random), real pool and serial
+        ctx.count("k>1024")
+        for mode in ("real", "serial", "controlled"):
+            pts = [0, 1, 255, 256, 1023, 1024, k - 1] + [int(x) for x in rng.integers(0, k, size=2)]
+            plans = [set()] + [{p} for p in (pts if mode != "controlled" else pts[:3])] + [{3, 700, k - 2}]
+            for j, plan in enumerate(plans):
+                if not run_plan(ctx, case, mode, plan, case["pseed"] + 4 * j, fresh_ref, feat):
+                    return
+        return
     for mode in modes:
         plans = [set()] + [{i} for i in range(k)]
         if mode != "serial":
